@@ -69,8 +69,22 @@ def blocks_of(name, pl):
     return 0
 
 
+def text_ranges(name, pl):
+    if name == 'UbxMonVer':
+        return [(0, 30), (30, 10)] + [(40 + 30 * k, 30) for k in range(max(0, (len(pl) - 40) // 30))]
+    return TEXT_RANGES.get(name, [])
+
+
+def decodable(b):
+    try:
+        bytes(b).decode()
+        return True
+    except UnicodeDecodeError:
+        return False
+
+
 def wellformed(name, pl):
-    """R5/R6: exactly the prescribed length, ASCII text"""
+    """R6: exactly the prescribed length; text fields hold what the interpreter's strict UTF-8 codec decodes"""
     size = CLASSES[name]
     n = blocks_of(name, pl)
     if name == 'UbxCfgGnss':
@@ -83,12 +97,11 @@ def wellformed(name, pl):
         size = 16 + 4 * n
     elif name == 'UbxMonVer':
         size = 40 + 30 * n
-        if len(pl) < 40 or any(b >= 0x80 for b in pl):
+        if len(pl) < 40:
             return False
-    for off, ln in TEXT_RANGES.get(name, []):
-        if any(b >= 0x80 for b in pl[off:off + ln]):
-            return False
-    return len(pl) == size
+    if len(pl) != size:
+        return False
+    return all(decodable(pl[off:off + ln]) for off, ln in text_ranges(name, pl))
 
 
 def show(v):
@@ -107,6 +120,21 @@ def has_nonascii_text(name, pl):
     if name == 'UbxMonVer':
         return any(b >= 0x80 for b in pl)
     return any(b >= 0x80 for off, ln in TEXT_RANGES.get(name, []) for b in pl[off:off + ln])
+
+
+UTF8_GOOD = ['é', '°', 'µ', 'ß', '€', '中', '\u0800', '\ud7ff', '\ue000', '\uffff', '😀', '\U00010000', '\U0010ffff', '\x7f', '\x80', '\u07ff']
+UTF8_BAD = [b'\x80', b'\xbf', b'\xc0\x80', b'\xc1\xbf', b'\xc3', b'\xe0\x80\x80', b'\xe0\x9f\xbf', b'\xed\xa0\x80', b'\xed\xbf\xbf',
+            b'\xf0\x80\x80\x80', b'\xf0\x8f\xbf\xbf', b'\xf4\x90\x80\x80', b'\xf5\x80\x80\x80', b'\xff', b'\xe2\x82', b'\xf0\x9f\x98', b'\xc3\x28',
+            b'\xe2\x28\xa1', b'\xf8\x88\x80\x80\x80']
+
+
+def sprinkle_text(rng, pl, off, ln):
+    """multi-byte characters (mostly well-formed, at any position, also cut by the end of the field) into a text field"""
+    for _ in range(rng.choice([1, 1, 2, 3])):
+        seq = rng.choice(UTF8_GOOD).encode() if rng.random() < .8 else rng.choice(UTF8_BAD)
+        at = off + rng.randrange(ln)
+        seq = seq[:off + ln - at]
+        pl[at:at + len(seq)] = seq
 
 
 # =====================================================================================================
@@ -537,8 +565,9 @@ def payload_for(rng, name):
         if rng.random() < .5:
             pl[25:30] = bytes(5)
             pl[36:40] = bytes(4)
-        if rng.random() < .05:
-            pl[rng.randrange(len(pl))] = 0xC3
+        if rng.random() < .35:
+            off, ln = rng.choice(text_ranges(name, pl))
+            sprinkle_text(rng, pl, off, ln)
     else:
         k = rng.random()
         if k < .2:
@@ -551,6 +580,8 @@ def payload_for(rng, name):
             pl = bytearray(rng.randrange(256) for _ in range(size))
         if name == 'UbxCfgNmea' and rng.random() < 0.9:
             pl[12:14] = bytes(rng.choice(b'GPBD\x00') for _ in range(2))
+            if rng.random() < .3:
+                pl[12:14] = rng.choice(['é', '°', 'µ', 'ß', '\x80', '\u07ff']).encode() if rng.random() < .8 else rng.choice([b'\xc3\x28', b'\xc0\x80', b'A\xc3', b'\xa9B'])
     r = rng.random()
     if r < .06:
         pl = pl[:rng.randrange(0, len(pl) + 1)]          # too short
@@ -562,8 +593,6 @@ def payload_for(rng, name):
 def real_fields(line):
     _, name, h = line.split('|')
     pl = bytes.fromhex(h)
-    if has_nonascii_text(name, pl):
-        return 'EXC:nonascii'          # R5: outside the model's domain, reported as such by both sides
     given = bytearray(pl)
     try:
         f = find_class(name).construct(given)
@@ -592,7 +621,7 @@ def api_values(name, pl, spec_names=None):
 def oracles_fields(line, real_out):
     _, name, h = line.split('|')
     pl = bytes.fromhex(h)
-    if not wellformed(name, pl) or real_out.startswith('EXC:nonascii'):
+    if not wellformed(name, pl):
         return [], []
     n = blocks_of(name, pl)
     dec = real_out.split(' ')[0] if not real_out.startswith('EXC') else real_out
@@ -648,10 +677,80 @@ def gen_fields(rng, n, profile):
             for k in range(size):
                 pl = bytearray(size)
                 pl[k] = 0x80
-                if not has_nonascii_text(name, pl):
-                    yield f'fields|{name}|' + bytes(pl).hex()
+                yield f'fields|{name}|' + bytes(pl).hex()
         for _ in range(n):
             yield f'fields|{name}|' + payload_for(rng, name).hex()
+
+
+# ---- one text item ------------------------------------------------------------------------------------
+def real_ch(line):
+    _, n, h = line.split('|')
+    it = CH(int(n), 'x')
+    try:
+        k = it.unpack(bytearray(bytes.fromhex(h)))
+    except Exception as e:
+        return 'EXC:' + exc_name(e)
+    try:
+        packed = bytes(it.pack()).hex()
+    except Exception as e:
+        packed = 'EXC:' + exc_name(e)
+    return f'{k} {show(it.value)} pack={packed}'
+
+
+def oracles_ch(line, real_out):
+    _, n, h = line.split('|')
+    n, data = int(n), bytes.fromhex(h)
+    if len(data) < n or not decodable(data[:n]):
+        return [], []
+    recs = [{'prop': 'C07', 'ok': not real_out.startswith('EXC'), 'expected': 'text', 'observed': real_out[:100],
+             'what': 'every well-formed text field decodes'},
+            {'prop': 'C08', 'ok': real_out.endswith('pack=' + data[:n].hex()), 'expected': data[:n].hex(), 'observed': real_out[-80:],
+             'what': 'decoding a text field and encoding it again reproduces its bytes'}]
+    spec = []
+    if not real_out.startswith('EXC'):
+        got = parse_value(real_out.split(' ')[1])
+        spec.append({'line': 'utf8enc|' + ','.join(str(ord(c)) for c in got), 'expect': data[:n].rstrip(b'\x00').hex(), 'prop': 'C07',
+                     'what': 'a text field holds the characters whose UTF-8 encoding was sent, without the trailing NULs'})
+    return recs, spec
+
+
+def ch_space():
+    for a in range(256):
+        yield f'ch|1|{a:02x}'
+        for b in range(256):
+            yield f'ch|2|{a:02x}{b:02x}'
+    edge = [0x7f, 0x80, 0xbf, 0xc0]
+    for a in (0xe0, 0xe1, 0xec, 0xed, 0xee, 0xef):
+        for b in range(256):
+            for c in edge:
+                yield f'ch|3|{a:02x}{b:02x}{c:02x}'
+    for a in (0xf0, 0xf1, 0xf3, 0xf4, 0xf5):
+        for b in range(256):
+            for c in edge:
+                for d in edge:
+                    yield f'ch|4|{a:02x}{b:02x}{c:02x}{d:02x}'
+
+
+def gen_ch(rng, n, profile):
+    """all-text: the whole space of one- and two-byte sequences; three- and four-byte sequences over every lead byte class x
+    every second byte x boundary continuation bytes (shard k of K takes every K-th); otherwise random text with padding,
+    sequences cut by the end of the field, data shorter and longer than the field"""
+    if profile.startswith('all-text'):
+        k, K = map(int, profile.split(':')[1].split('/')) if ':' in profile else (0, 1)
+        for j, ln in enumerate(ch_space()):
+            if j % K == k:
+                yield ln
+        return
+    for _ in range(n):
+        ln = rng.choice([1, 2, 3, 4, 10, 30])
+        pl = bytearray(rng.choice(b'ABCxyz019 .=\x00\x00') for _ in range(ln))
+        sprinkle_text(rng, pl, 0, ln)
+        if rng.random() < .3:
+            cut = rng.randrange(ln)
+            pl[cut:] = bytes(ln - cut)                      # NUL padding behind the text
+        k = rng.random()
+        data = bytes(pl) if k < .7 else bytes(pl) + bytes(rng.randrange(1, 4)) if k < .9 else bytes(pl[:rng.randrange(ln)])
+        yield f'ch|{ln}|{data.hex()}'
 
 
 def parse_value(s):
@@ -706,7 +805,7 @@ def field_kinds(name, pl):
 
 def in_range(kind, w, v):
     if kind == 'text':
-        return isinstance(v, str) and len(v.encode()) <= w and all(ord(c) < 128 for c in v) and not v.endswith('\x00')
+        return isinstance(v, str) and len(v.encode()) <= w and not v.endswith('\x00')
     if not isinstance(v, int):
         return False
     if kind in 'BHIQ':
@@ -743,7 +842,9 @@ def oracles_assign(line, real_out):
 
 def boundary_values(rng, kind, w):
     if kind == 'text':
-        vals = ['', 'A', 'AB'[:w], 'Z' * w, 'Z' * (w + 1), 'a\x00b'[:w]]
+        vals = ['', 'A', 'AB'[:w], 'Z' * w, 'Z' * (w + 1), 'a\x00b'[:w],
+                # text measured in bytes, not characters: fitting exactly, one byte too long with fewer than w characters
+                'é' * (w // 2), 'é' * (w // 2 + 1), ('µ' + 'A' * w)[:w - 1], '€'[:w // 3] + 'x' * (w % 3), '😀' * (w // 4 + (1 if w % 4 else 0))]
         return [('s:' + v.encode().hex()) for v in vals]
     bits = 8 * w
     vs = [0, 1, 2, (1 << (bits - 1)) - 1, 1 << (bits - 1), (1 << bits) - 1, 1 << bits, -1, -(1 << (bits - 1)), -(1 << (bits - 1)) - 1,
@@ -1070,6 +1171,14 @@ def real_valset(line):
             f = UbxCfgValSetAction(items)
             f.pack()
             return bytes(f.data).hex()
+        if p[0] == 'valsetreuse':
+            # the same item objects in two frames, one after the other: the later frame is the one looked at
+            objs = [CfgKeyData('x', g, i, b, v, s) for g, i, b, s, v in parse_items(p[1])]
+            first = UbxCfgValSetAction([objs[int(k)] for k in p[2].split(',')])
+            first.pack()
+            f = UbxCfgValSetAction([objs[int(k)] for k in p[3].split(',')])
+            f.pack()
+            return bytes(f.data).hex()
         if p[0] == 'valgetpoll':
             f = UbxCfgValGetPoll([int(k) for k in p[1].split(',')])
             f.pack()
@@ -1111,8 +1220,17 @@ def ref_unpack(data):
     return ((key >> 16) & 0xff, key & 0xfff, bits, sg, v), 4 + WIDTH[bits]
 
 
-def oracles_valset(line, real_out):
+def model_line_valset(line):
+    """the model knows nothing of objects: a frame made of items used before is the frame made of those items"""
     p = line.split('|')
+    if p[0] == 'valsetreuse':
+        specs = p[1].split(';')
+        return 'valset|' + ';'.join(specs[int(k)] for k in p[3].split(','))
+    return line
+
+
+def oracles_valset(line, real_out):
+    p = model_line_valset(line).split('|')
     recs = []
     if p[0] == 'valset':
         items = parse_items(p[1])
@@ -1205,6 +1323,13 @@ def gen_valset(rng, n, profile):
         if rng.random() < .2:
             items[rng.randrange(cnt)] = item(False)
         yield 'valset|' + ';'.join(items)
+    for _ in range(max(4, n // 4)):
+        # items that were part of an earlier frame (sent before, or built and dropped), in another order and mixed with new ones
+        cnt = rng.choice([2, 3, 4, 8])
+        items = [item() for _ in range(cnt)]
+        sel1 = rng.sample(range(cnt), rng.randrange(1, cnt + 1))
+        sel2 = rng.sample(range(cnt), rng.randrange(1, cnt + 1))
+        yield 'valsetreuse|' + ';'.join(items) + '|' + ','.join(map(str, sel1)) + '|' + ','.join(map(str, sel2))
     for _ in range(n // 2):
         ks = [rng.choice(keys) if rng.random() < .7 else rng.randrange(1 << 32) for _ in range(rng.choice([1, 2, 5, 64]))]
         yield 'valgetpoll|' + ','.join(map(str, ks))
@@ -1483,8 +1608,6 @@ def real_render(line):
             return f'ok name={"true" if type(f).NAME in text else "false"} missing={",".join(missing) or "-"} items={len(names)}'
         if p[0] == 'str':
             cls = find_class(p[1])
-            if p[2] != '-' and has_nonascii_text(p[1], bytes.fromhex(p[2])):
-                return 'EXC:nonascii'          # R5: outside the model's domain
             f = cls() if p[2] == '-' else cls.construct(bytearray(bytes.fromhex(p[2])))
             if p[3]:
                 for e in p[3].split(','):
@@ -1564,9 +1687,10 @@ COMPONENTS = {
     'frame': {'real': real_frame, 'oracles': oracles_frame, 'gen': gen_frame},
     'ck': {'real': real_ck, 'oracles': oracles_ck, 'gen': gen_ck},
     'fields': {'real': real_fields, 'oracles': oracles_fields, 'gen': gen_fields},
+    'ch': {'real': real_ch, 'oracles': oracles_ch, 'gen': gen_ch},
     'assign': {'real': real_assign, 'oracles': oracles_assign, 'gen': gen_assign},
     'key': {'real': real_key, 'oracles': oracles_key, 'gen': gen_key},
-    'valset': {'real': real_valset, 'oracles': oracles_valset, 'gen': gen_valset},
+    'valset': {'real': real_valset, 'oracles': oracles_valset, 'gen': gen_valset, 'model_line': model_line_valset},
     'gnss': {'real': real_gnss, 'oracles': oracles_gnss, 'gen': gen_gnss},
     'helper': {'real': real_helper, 'oracles': oracles_helper, 'gen': gen_helper},
     'render': {'real': real_render, 'oracles': oracles_render, 'gen': gen_render},
